@@ -14,6 +14,7 @@ import (
 
 	"github.com/ozontech/seq-db/consts"
 	"github.com/ozontech/seq-db/disk"
+	"github.com/ozontech/seq-db/logger"
 	pb "github.com/ozontech/seq-db/pkg/storeapi"
 	"github.com/ozontech/seq-db/proxy/search"
 	"github.com/ozontech/seq-db/proxy/stores"
@@ -28,6 +29,7 @@ type SOutcome struct {
 	Kind    string `json:"k"`            // search: ok | err | wants_old | too_many ; fetch: ok | err | break | missing | extra | dup | swap
 	DelayMs int    `json:"ms,omitempty"` // reply latency (decides the arrival order of shard replies)
 	At      int    `json:"at,omitempty"` // position the stream fault applies to
+	N       int    `json:"n,omitempty"`  // extra/dup: how many unrequested entries (default 1), at consecutive positions
 }
 
 // C16Doc is a document of the stub corpus.
@@ -87,6 +89,10 @@ type recKey struct{}
 type reqRecord struct {
 	searchAns map[string]string // host -> outcome kind of its search call in this request
 	fetchAns  map[string]SOutcome
+	// ids some fetch call of this request was asked for but did not deliver (failed call, broken stream,
+	// missing or reordered entry): only these may come back empty
+	excused   map[seq.ID]string
+	requested map[seq.ID]bool
 }
 
 func (r *c16Runner) logf(f string, a ...any) {
@@ -137,7 +143,7 @@ func (st *c16Stub) Search(ctx context.Context, in *pb.SearchRequest, _ ...grpc.C
 	r.res.Fired["search_"+o.Kind]++
 	rec, _ := ctx.Value(recKey{}).(*reqRecord) // the request this call belongs to (a straggler of an earlier request may run late)
 	if rec == nil {
-		rec = &reqRecord{searchAns: map[string]string{}, fetchAns: map[string]SOutcome{}}
+		rec = &reqRecord{searchAns: map[string]string{}, fetchAns: map[string]SOutcome{}, excused: map[seq.ID]string{}, requested: map[seq.ID]bool{}}
 	}
 	rec.searchAns[st.host] = o.Kind
 	if err := simWait(ctx, time.Duration(o.DelayMs)*time.Millisecond); err != nil {
@@ -200,14 +206,36 @@ func (st *c16Stub) Fetch(ctx context.Context, in *pb.FetchRequest, _ ...grpc.Cal
 		o = sc[st.nf-1]
 	}
 	r.res.Fired["fetch_"+o.Kind]++
-	if rec, _ := ctx.Value(recKey{}).(*reqRecord); rec != nil {
-		rec.fetchAns[st.host] = o
+	rec, _ := ctx.Value(recKey{}).(*reqRecord)
+	if rec == nil {
+		rec = &reqRecord{searchAns: map[string]string{}, fetchAns: map[string]SOutcome{}, excused: map[seq.ID]string{}, requested: map[seq.ID]bool{}}
+	}
+	rec.fetchAns[st.host] = o
+	var ids []seq.ID
+	for _, iw := range in.IdsWithHints {
+		id, err := seq.FromString(iw.Id)
+		if err != nil {
+			return nil, err
+		}
+		ids = append(ids, id)
+		rec.requested[id] = true
+	}
+	excuse := func(i int, why string) {
+		if i >= 0 && i < len(ids) {
+			rec.excused[ids[i]] = st.host + ": " + why
+		}
 	}
 	if err := simWait(ctx, time.Duration(o.DelayMs)*time.Millisecond); err != nil {
+		for i := range ids {
+			excuse(i, "call cancelled")
+		}
 		return nil, err
 	}
-	r.logf("%s fetch#%d (%d ids) -> %s at %d", st.host, st.nf, len(in.IdsWithHints), o.Kind, o.At)
+	r.logf("%s fetch#%d (%d ids) -> %s at %d n %d", st.host, st.nf, len(in.IdsWithHints), o.Kind, o.At, o.N)
 	if o.Kind == "err" {
+		for i := range ids {
+			excuse(i, "fetch call failed")
+		}
 		return nil, errors.New("stub: fetch failed")
 	}
 	have := map[seq.ID]C16Doc{}
@@ -215,22 +243,22 @@ func (st *c16Stub) Fetch(ctx context.Context, in *pb.FetchRequest, _ ...grpc.Cal
 		have[seq.ID{MID: seq.MID(d.MID), RID: seq.RID(d.RID)}] = d
 	}
 	stream := &c16Stream{breakAt: -1}
-	for i, iw := range in.IdsWithHints {
-		id, err := seq.FromString(iw.Id)
-		if err != nil {
-			return nil, err
-		}
+	n := max(1, o.N)
+	at := o.At % max(1, len(ids))
+	for i, id := range ids {
 		var body []byte
 		if d, ok := have[id]; ok {
 			body = docBody(d)
+		} else {
+			excuse(i, "store does not hold the document")
 		}
-		at := o.At % max(1, len(in.IdsWithHints))
 		switch {
 		case o.Kind == "missing" && i == at:
 			body = nil
-		case o.Kind == "extra" && i == at:
-			stream.msgs = append(stream.msgs, packDoc(seq.ID{MID: 1, RID: 42}, []byte(`{"doc":"intruder"}`)))
-		case o.Kind == "dup" && i == at:
+			excuse(i, "entry delivered empty")
+		case o.Kind == "extra" && i >= at && i < at+n:
+			stream.msgs = append(stream.msgs, packDoc(seq.ID{MID: 1, RID: seq.RID(42 + i)}, []byte(`{"doc":"intruder"}`)))
+		case o.Kind == "dup" && i >= at && i < at+n:
 			stream.msgs = append(stream.msgs, packDoc(id, body))
 		}
 		stream.msgs = append(stream.msgs, packDoc(id, body))
@@ -238,9 +266,14 @@ func (st *c16Stub) Fetch(ctx context.Context, in *pb.FetchRequest, _ ...grpc.Cal
 	if o.Kind == "swap" && len(stream.msgs) >= 2 {
 		at := o.At % (len(stream.msgs) - 1)
 		stream.msgs[at], stream.msgs[at+1] = stream.msgs[at+1], stream.msgs[at]
+		excuse(at, "entries reordered")
+		excuse(at+1, "entries reordered")
 	}
 	if o.Kind == "break" {
 		stream.breakAt = o.At % (len(stream.msgs) + 1)
+		for i := stream.breakAt; i < len(ids); i++ {
+			excuse(i, "stream broke before the entry")
+		}
 	}
 	return stream, nil
 }
@@ -260,6 +293,7 @@ func (st *c16Stub) Status(context.Context, *pb.StatusRequest, ...grpc.CallOption
 
 // RunC16 executes one case in its own bubble.
 func RunC16(t *testing.T, c *C16Case) *RunResult {
+	logger.ResetSink()
 	res := &RunResult{Seed: c.Seed, Fired: map[string]int{}, Probes: map[string]int{}}
 	r := &c16Runner{c: c, res: res}
 	simrand.Seed(c.Seed ^ 0x99)
@@ -273,6 +307,11 @@ func RunC16(t *testing.T, c *C16Case) *RunResult {
 	res.Schedule = s.RecordedSchedule()
 	res.SimMs = s.SimElapsed().Milliseconds()
 	res.Trace = r.log
+	if len(res.Violations) > 0 {
+		for _, l := range logger.SinkTail() {
+			res.Trace = append(res.Trace, "seq-db log: "+l)
+		}
+	}
 	if len(res.Trace) > 120 {
 		res.Trace = res.Trace[len(res.Trace)-120:]
 	}
@@ -310,7 +349,7 @@ func (r *c16Runner) script() {
 	}
 	ing := search.NewIngestor(search.Config{HotStores: hot, ReadStores: cold, WriteStores: cold, ShuffleReplicas: c.Shuffle}, clients)
 	for qi, rq := range c.Requests {
-		r.reqRecord = &reqRecord{searchAns: map[string]string{}, fetchAns: map[string]SOutcome{}}
+		r.reqRecord = &reqRecord{searchAns: map[string]string{}, fetchAns: map[string]SOutcome{}, excused: map[seq.ID]string{}, requested: map[seq.ID]bool{}}
 		order := seq.DocsOrderDesc
 		if !rq.Desc {
 			order = seq.DocsOrderAsc
@@ -472,6 +511,9 @@ func (r *c16Runner) check(qi int, rq C16Req, hot, cold *stores.Stores, qpr *seq.
 			if derr != nil {
 				break
 			}
+			if n < len(qpr.IDs) {
+				r.logf("  doc %d: id %d-%d source %d -> %d bytes", n, qpr.IDs[n].ID.MID, qpr.IDs[n].ID.RID, qpr.IDs[n].Source, len(d.Data))
+			}
 			if n >= len(qpr.IDs) {
 				r.violate("docs_alignment", "request %d: the documents stream yields more entries than ids (%d)", qi, len(qpr.IDs))
 				return
@@ -485,6 +527,12 @@ func (r *c16Runner) check(qi int, rq C16Req, hot, cold *stores.Stores, qpr *seq.
 				}
 			} else {
 				r.res.Probes["empty_doc"]++
+				if why, ok := r.excused[id.ID]; !ok {
+					r.violate("undelivered_doc", "request %d: document %d (id %d-%d) came back empty although every store asked for it delivered it (requested from a store: %v; fetch calls %v)", qi, n, id.ID.MID, id.ID.RID, r.requested[id.ID], r.fetchAns)
+					return
+				} else {
+					_ = why
+				}
 			}
 			n++
 		}
@@ -548,6 +596,9 @@ func GenC16(seed uint64, thorough bool) *C16Case {
 					if r.Bool(failRate) {
 						f.Kind = []string{"err", "break", "missing", "extra", "dup", "swap"}[r.Intn(6)]
 						f.At = r.Intn(8)
+						if (f.Kind == "extra" || f.Kind == "dup") && r.Bool(0.5) {
+							f.N = r.Range(2, 3)
+						}
 					}
 					fs = append(fs, f)
 				}
